@@ -41,6 +41,10 @@ CLAIMED = {
         text="Deductive proof over the real text of crates/codegen/src/convert/abi/x86_64.rs against the System V AMD64 psABI section 3.2.3 as transcribed in units/abi/spec.rs: Class::merge_eigthbyte is the psABI merge (rules a, b, d, f; commutative, associative); classify_eight_byte gives every eightbyte of ANY type (scalars, arrays, structs, enums, optionals, error unions, distinct types, nested to any depth) the merge of the classes of the scalars that lie in it (recursive spec eb_class, unbounded induction over the type); classify_arg returns exactly that for types of at most 16 bytes and MEMORY otherwise; the post-merger clean-up of classify_arg (lifted) implements rules (c) and (d); reg_component / split_aggregate give every eightbyte of an aggregate of 1..16 bytes a register of that eightbyte's class wide enough for the bytes left, the second one starting at byte 8; fn_ty_to_abi hands out the six integer and eight vector registers left to right exactly as the psABI prescribes -- an argument gets registers only if ALL its eightbytes get one, otherwise it goes to memory and consumes none, a MEMORY-class return value costs %rdi, zero-sized arguments cost nothing -- for every signature with any number of parameters.",
         note='Partial: FnAbi::{to_cl,get_arg_list,ret_addr,handle_ret,build_fn} (the loads/stores that move the eightbytes) are not under contract; Cranelift is trusted to assign the host registers to the value types computed; domain conditions (explicit preconditions): layouts of all parts known, size != 64 bytes, 8-byte pointers, no pure-padding eightbyte in a small aggregate, scalars aligned (C17); only the x86-64 SysV file is covered (aarch64 / windows / simplified are not); comparison with the host gcc is not part of the proof.',
         ref='DESIGN.md 5 (C19)'),
+    'C24': dict(
+        text="Deductive proof over the real text of the if/else chain of parse_expr_bp that picks (left_bp, right_bp) (lifted mechanically): for every token, the binding powers are exactly the documented table -- level l gets (2l-1, 2l) for `||` < `&&` < comparisons < `+ - | ~` < `* / % & << >>`, None for any other token -- and that table is proved to have what precedence climbing needs (higher level binds tighter, right power above left power = left associativity). The precedence-climbing loop around the table is recursive over a token stream and an event sink and gets a BOUNDED stand-in: every chain of at most 3 (quick) / 4 (thorough) of the 18 binary operators, also over prefixed and postfixed operands, parsed by the real lexer + parser and compared with the tree the table dictates.",
+        note='Partial: the table is proved, the loop is bounded (not a proof). Parser::at / at_set and TokenSet::new are shims (the real ones are behind a proc macro / build script). Not covered: parse_lhs / parse_post_operators / prefix operators beyond the operands listed, the print-and-reparse clause, error recovery.',
+        ref='DESIGN.md 5 (C24)'),
     'C25': dict(
         text='Deductive proof over the real text of LineIndex::line_col, Index<LineNr>::index and the Sub impls: for every text, every index built from it and every offset in it, line = number of newlines before the offset and column = offset - start of that line; no underflow, no out-of-bounds.',
         note='Partial: LineIndex::new (iterator chain) is assumed to build the index (index_wf); TextSize modelled as u32; std partition_point contract assumed; the "file:line:col" rendering is not under contract.',
@@ -71,7 +75,6 @@ NOT_APPLICABLE = {
     'C21': 'reproducibility is a hyper-property over two executions',
     'C22': 'token automaton is derive(Logos)-generated; Verus cannot see it and Kani did not finish symbolic execution of lex on 3-byte inputs in 15 min',
     'C23': 'parser termination/losslessness needs a measure through ~2 000 lines of mutually recursive grammar functions',
-    'C24': 'Pratt loop binding powers are an if/else chain inside parse_expr_bp, not a function; tree shape needs an event-stream specification',
     'C28': 'file-system behaviour (existence, current_dir, path cleaning) is behind syscalls neither verifier models',
 }
 
